@@ -501,6 +501,14 @@ func genValue(t *rapid.T, label string) string {
 // survives JSON; looked-up paths carry arbitrary bytes anyway.
 var exoticLits = []string{"é", "caf\u00e9", "日本", "ｃ", "ü.", "\u00ff", "\u00fd", "C", "c", "menú", "crêpes", "£", "À"} // the last four hold the bytes 0xBA 0xAA 0xA3 0x80 (r9)
 
+// long literals: a parameter-free pattern of 62-68, 128/129 and 256/257 bytes (any per-length shortcut in front of the
+// static table has its edge at a power of two) (r10)
+func init() {
+	for _, n := range []int{61, 62, 63, 64, 65, 66, 67, 127, 128, 255, 256} {
+		exoticLits = append(exoticLits, strings.Repeat("k", n))
+	}
+}
+
 func genLit(t *rapid.T, vocab []string) string {
 	if rapid.IntRange(0, 7).Draw(t, "exotic") == 0 {
 		return rapid.SampledFrom(exoticLits).Draw(t, "xlit")
